@@ -1,8 +1,11 @@
 (* C20 — Cached discovery records expire on time. Time is an explicit tick count (two ticks per second) in the model;
-   the real clock is exercised by the HISTB slice. PARTIAL: the per-operation effect on a record's state and the filter
-   semantics are proved; the statement over whole histories (for all operation sequences) is checked by the slice against
-   an independent history spec, not proved. Property theorems only. *)
-Require Import SD.Base SD.Codes SD.Name SD.RData SD.Packet SD.Store SD.StoreProofs.
+   the real clock is exercised by the HISTB slice. Proved: the effect of each operation on a record's state, the filter
+   semantics, and - over whole histories - that after ANY sequence of register / receive / remove / clear operations the
+   state of every record equals a small specification that looks only at the operations touching that record (up to
+   record equality: name, class, data), and that an exact-name query shows the record exactly when that state passes the
+   filter. PARTIAL: the real clock (Instant, sleeps, scheduling) is outside the model; subdomain queries are characterised
+   by C20_query_sound only. Property theorems only. *)
+Require Import SD.Base SD.Codes SD.Name SD.RData SD.Packet SD.Store SD.StoreProofs SD.HistoryProofs.
 
 (* a record learned from the network expires TTL seconds after THIS reception (one second with the cache-flush bit),
    so re-reception restarts the interval - unless the record is registered locally, which stays authoritative *)
@@ -23,6 +26,30 @@ Print Assumptions C20_remove.
 Theorem C20_clear : forall r, kind_of clear_store r = None.
 Proof. exact kind_after_clear. Qed.
 Print Assumptions C20_clear.
+
+(* whole histories: the store refines the per-record specification, from any starting store and for any operation sequence *)
+Theorem C20_history : forall ops st r, kind_of (fold_left apply_op ops st) r = fold_left (spec_step r) ops (kind_of st r).
+Proof. exact history_refines. Qed.
+Check C20_history : forall ops st r, kind_of (fold_left apply_op ops st) r = fold_left (spec_step r) ops (kind_of st r).
+Print Assumptions C20_history.
+(* the specification, spelled out so that it can be read here: only operations on an equal record matter *)
+Example C20_spec_is : forall r s o, spec_step r s o =
+  match o with
+  | OpAddAuth a => if rr_eqb a r then Some Auth else s
+  | OpAddCached a now => if rr_eqb a r then match s with Some Auth => Some Auth | _ => Some (Cached (now + 2 * (if rcf a then 1 else rttl a))) end else s
+  | OpRemove a => if rr_eqb a r then None else s
+  | OpClear => None
+  end.
+Proof. reflexivity. Qed.
+Theorem C20_record_equality : forall a b, rr_eqb a b = true <-> (rname a = rname b /\ rclass a = rclass b /\ rdata_of a = rdata_of b).
+Proof. exact rr_eqb_spec. Qed.
+Print Assumptions C20_record_equality.
+(* what the application sees after any history *)
+Theorem C20_history_visibility : forall ops r f now, f_sub f = false ->
+  ((exists r', rr_eqb r' r = true /\ In r' (List.concat (query (fold_left apply_op ops []) (rname r) f now)))
+   <-> visible f (spec_state ops r) now = true).
+Proof. exact history_visibility. Qed.
+Print Assumptions C20_history_visibility.
 
 (* authoritative records never expire and are never shown by the cache-only filter; cached ones are shown only while unexpired *)
 Theorem C20_filters : forall v now,
